@@ -23,7 +23,8 @@ LATTICE = 2 ** 12          # snapping lattice for un-rounded marginal-rate value
 
 
 def fr(x) -> str:
-    x = F(x)
+    if type(x) is not F:
+        x = F(x)
     return str(x.numerator) if x.denominator == 1 else f"{x.numerator}/{x.denominator}"
 
 
@@ -91,21 +92,45 @@ def mk(kind: str, ins):
         s = cls(name="scale", option="main-option", unit="currency")
     else:
         s = cls()
+    # like the YAML loader, which yields int for `threshold: 100` and float for `100.0`: on a third of the scales the
+    # integral thresholds and rates are passed as Python ints
+    as_int = (len(ins) + sum(r.numerator for _, r in ins)) % 3 == 0
     for t, r in ins:
-        s.add_bracket(float(t), float(r))
+        if as_int:
+            s.add_bracket(int(t) if t.denominator == 1 else float(t), int(r) if r.denominator == 1 else float(r))
+        else:
+            s.add_bracket(float(t), float(r))
     return s
 
 
+def opt_str(t: str):
+    """protocol token -> Python value of a descriptive attribute: `~` = None, `@e` = the empty string"""
+    return None if t == "~" else "" if t == "@e" else t
+
+
+def show_opt(v) -> str:
+    return "~" if v is None else "@e" if v == "" else str(v)
+
+
+def show_meta(s) -> str:
+    return f"{show_opt(s.name)}|{show_opt(s.option)}|{show_opt(s.unit)}"
+
+
 def split_bases(text: str):
-    """`i:` prefix = integer array on the implementation side"""
+    """(kind, bases): `i:` prefix = integer array on the implementation side (kind "i"), `f:` = float32
+    array (kind "f"), no prefix = float64 (kind "", falsy)"""
     if text.startswith("i:"):
-        return True, parse_vals(text[2:])
-    return False, parse_vals(text)
+        return "i", parse_vals(text[2:])
+    if text.startswith("f:"):
+        return "f", parse_vals(text[2:])
+    return "", parse_vals(text)
 
 
-def arr(bases, ints: bool = False):
+def arr(bases, kind=""):
     import numpy
-    if ints:
+    if kind == "f":
+        return numpy.array([float(b) for b in bases], dtype=numpy.float32)
+    if kind:
         dt = numpy.int32 if len(bases) % 2 else numpy.int64
         return numpy.array([int(b) for b in bases], dtype=dt)
     return numpy.array([float(b) for b in bases], dtype=numpy.float64)
